@@ -329,8 +329,11 @@ func (c *cluster) monitor(key watchKey, l UpdateListener) error {
 
 	c.addListener(key, l)
 	rev := c.load(cli, key)
-	c.watchGroup.Run(func() {
-		c.watch(cli, key, rev)
+	c.lock.RLock()
+	done, watchGroup := c.done, c.watchGroup
+	c.lock.RUnlock()
+	watchGroup.Run(func() {
+		c.watchUntil(cli, key, rev, done)
 	})
 
 	return nil
@@ -360,8 +363,10 @@ func (c *cluster) reload(cli EtcdClient) {
 		}
 	}
 
-	c.done = make(chan lang.PlaceholderType)
-	c.watchGroup = threading.NewRoutineGroup()
+	done := make(chan lang.PlaceholderType)
+	newGroup := threading.NewRoutineGroup()
+	c.done = done
+	c.watchGroup = newGroup
 	c.lock.Unlock()
 
 	// wait for the previous watches without holding the lock,
@@ -371,16 +376,26 @@ func (c *cluster) reload(cli EtcdClient) {
 	// start new watches
 	for _, key := range keys {
 		k := key
-		c.watchGroup.Run(func() {
+		newGroup.Run(func() {
 			rev := c.load(cli, k)
-			c.watch(cli, k, rev)
+			c.watchUntil(cli, k, rev, done)
 		})
 	}
 }
 
 func (c *cluster) watch(cli EtcdClient, key watchKey, rev int64) {
+	c.lock.RLock()
+	done := c.done
+	c.lock.RUnlock()
+	c.watchUntil(cli, key, rev, done)
+}
+
+// watchUntil watches the key until the given done channel is closed,
+// which is the done channel of the cluster when the watch was started.
+func (c *cluster) watchUntil(cli EtcdClient, key watchKey, rev int64,
+	done <-chan lang.PlaceholderType) {
 	for {
-		err := c.watchStream(cli, key, rev)
+		err := c.watchStream(cli, key, rev, done)
 		if err == nil {
 			return
 		}
@@ -395,7 +410,8 @@ func (c *cluster) watch(cli EtcdClient, key watchKey, rev int64) {
 	}
 }
 
-func (c *cluster) watchStream(cli EtcdClient, key watchKey, rev int64) error {
+func (c *cluster) watchStream(cli EtcdClient, key watchKey, rev int64,
+	done <-chan lang.PlaceholderType) error {
 	ctx, rch := c.setupWatch(cli, key, rev)
 
 	for {
@@ -414,7 +430,7 @@ func (c *cluster) watchStream(cli EtcdClient, key watchKey, rev int64) error {
 			c.handleWatchEvents(ctx, key, wresp.Events)
 		case <-ctx.Done():
 			return nil
-		case <-c.done:
+		case <-done:
 			return nil
 		}
 	}
